@@ -287,6 +287,9 @@ class CInference(Inference):
                 logger.debug("eta %s", eta)
                 logger.debug("vSums %s", vSums[index])
                 logger.debug("fSums %s", fSums[index])
+            if not fSums[index]:
+                # no world falsifies this conditional: every ranking accepts it
+                continue
             mv, mf = freshVars(index)
             vMin = minima_encoding(mv, vSums[index])
             fMin = minima_encoding(mf, fSums[index])
